@@ -42,6 +42,9 @@ def t3_case(case):
         for i in range(d - 1):
             if rk[i + 1] >= 2:
                 cores[i][:, :, :, -1] = 2.0 * cores[i][:, :, :, 0]
+    # relative thresholds must be scale invariant: tensors with norm far from 1 are part of the family
+    scale = float([1.0, 1e7, 1e-7][(case['k'] // 4) % 3])
+    cores[int(rng.integers(d))] *= scale
     t = TT(cores)
     T = spec.den(t).reshape(rd)
     thr = 1e-10 if deficient else 0.0
